@@ -275,7 +275,7 @@ let gen_dir r ~(mode : seg_mode) : dent list =
       { name = "000000010000000000000001.00000028.backup"; kind = 'f'; content = bytes_of_string "START WAL LOCATION\n"; items = [] };
       { name = "0000000A00000000000000FF"; kind = 'd'; content = []; items = [] };       (* a directory named like a segment *)
       { name = "0000000B00000000000000FF"; kind = 'l'; content = []; items = [] };       (* unreadable (dangling link) *)
-      { name = "0000000C00000000000000FF"; kind = 'f'; content = rbytes r (pick r [| 0; 10; 39 |]); items = [] }; (* too short *)
+      { name = "0000000C00000000000000FF"; kind = 'f'; content = rbytes r (pick r [| 0; 1; 2; 10; 39 |]); items = [] }; (* too short *)
       { name = "xlogtemp.12345"; kind = 'f'; content = rbytes r 50; items = [] } ] in
   shuffle r (segs @ other)
 
